@@ -219,7 +219,7 @@ def rphase(rng: random.Random, tiny_neg=True) -> float:
 class C16(PropCheck):
     id = "C16"
     props_file = "Props/C16.v"
-    quick_cases = 700
+    quick_cases = 1000
     thorough_cases = 12000
     shard = 60
     assumptions = [
